@@ -78,6 +78,30 @@ def is_persistent(name):
     return name in ("<t>", "<dt>") or name.startswith(("<state>", "<p>", "<ret_time_id>", "<ret_time>", "<ret_state>"))
 
 
+_PY_RESERVED = []
+
+
+def py_reserved_attrs():
+    """what the generated class uses itself: every attribute of an instance of an actually generated class (methods,
+    event classes, transition table, function container, ...) except those holding the method's persistent variables"""
+    if not _PY_RESERVED:
+        from dagrt.codegen.python import CodeGenerator
+        from dagrt.codegen.utils import exec_in_new_namespace
+        from dagrt.language import CodeBuilder, DAGCode
+        with CodeBuilder("main") as cb:
+            cb.assign("<state>y", "<state>y + <dt>")
+        cg = CodeGenerator("Probe")
+        src = cg(DAGCode.from_phases_list([cb.as_execution_phase("main")], "main"))
+        obj = exec_in_new_namespace(src)["Probe"]({})
+        before = set(dir(obj))
+        obj.set_up(t_start=0, dt_start=1, context={"y": 1})
+        held = {a for a in set(dir(obj)) - before}            # attributes created for persistent variables
+        names = {a for a in dir(obj) if not (a.startswith("__") and a.endswith("__"))} - held
+        # <t> and <dt> themselves live in self.t / self.dt: reserved for every OTHER name
+        _PY_RESERVED.append(names | PY_RESERVED_SELF)
+    return _PY_RESERVED[0]
+
+
 class PyTarget:
     name = "python"
 
@@ -113,7 +137,7 @@ class PyTarget:
     def storage_ok(self, op, ident):
         kind, name = op
         if kind == "func":
-            return ident.startswith("self._functions.")
+            return True             # where the generated class keeps the user's functions is its own business
         if is_persistent(name):
             return ident.startswith("self.")
         return "." not in ident and not ident.startswith("self")
@@ -121,7 +145,7 @@ class PyTarget:
     def reserved(self, ident):
         if ident.startswith("self."):
             rest = ident[5:]
-            return rest in PY_RESERVED_SELF
+            return rest in py_reserved_attrs()
         return ident in ("self", "evt", "numpy")
 
 
